@@ -1,6 +1,7 @@
 (* C18 - Schwab conversion keeps every relevant row and emits valid DSL.  Statements only. *)
 From Coq Require Import ZArith NArith List Bool Ascii String Permutation.
-Require Import CGT.Model.Date CGT.Model.Dsl CGT.Model.Schwab CGT.Proofs.DslFacts CGT.Proofs.SchwabFacts CGT.Proofs.SchwabConserve.
+Require Import CGT.Model.Date CGT.Model.Dsl CGT.Model.Schwab CGT.Proofs.DslFacts CGT.Proofs.SchwabFacts CGT.Proofs.SchwabConserve CGT.Proofs.SchwabTax.
+From Coq Require Import QArith.
 Import ListNotations.
 
 (* Whatever the free-text fields contain (quotes, '#', CR, LF, tabs ...), a comment line emitted by the
@@ -40,6 +41,17 @@ Theorem C18_cancels_accounted : forall cs out w out' w', apply_cancels out cs w 
   exists removed, Permutation out (removed ++ out') /\ (w <= w')%nat /\ (List.length removed + (w' - w) = List.length cs)%nat /\
                   Forall (fun x => exists c, In c cs /\ is_cancelled c x = true) removed.
 Proof. exact apply_cancels_spec. Qed.
+
+(* Dividends and withholding keep their totals: for every accepted export, the withholding carried by the emitted DIVIDEND lines
+   plus the withholding surfaced as "no dividend on that day" comments (each of which is among the output lines) equals the
+   withholding the NRA rows state (rows with a symbol and an amount; amounts added exactly as decimals). *)
+Theorem C18_withholding_kept : forall lb rows aws o, convert lb rows aws = Ok o ->
+  exists items sorted orphans header,
+    decode_all rows = Ok items /\ o_lines o = header ++ flat_map cgt_lines sorted /\
+    (forall e, In e orphans -> In (CComment (orphan_comment e)) sorted) /\
+    (out_tax sorted + tot orphans == nra_total items)%Q.
+Proof. exact convert_keeps_withholding. Qed.
+Print Assumptions C18_withholding_kept.
 
 (* non-vacuity: two identical sells, one cancel, a purchase and an irrelevant row - accepted; one sell and the purchase remain *)
 Definition c18_row (a d s q p f : string) : row :=
